@@ -26,6 +26,7 @@ RULE = ("(A) write->read->write: Hypothesis typed structures (1-8 atoms) with or
         "parsed, agreement with ase.io.read on cell and positions (1e-6 modulo lattice), non-P1 rejected. "
         "Non-trivial = (A) tilted cell or coordinates outside the cell, with >= 1 term and >= 1 extra column; (B) any "
         "file with s.u., Cartesian coordinates, out-of-cell coordinates or an H-M symbol; distinct by hash.")
+RULE += (" Since rounds 9-10: Every round-trip case also goes through Atoms.save(path) / Atoms.load(path) / load_p1_cif(path) on one fixed path and must agree with the file-object route; extra per-atom columns may carry tags that merely begin like handled tags (_atom_site_fract_x_su, ...); whole-number cells may be handed over as ints.")
 ASSUMPTIONS = ["with the CIF library version installed in the environment (PyCifRW 5.0.1)",
                "ase.io.read is the independent reader; it shares ase.geometry.cellpar_to_cell with mofun"]
 
